@@ -358,6 +358,158 @@ func checkC08(w *World) {
 	})
 	w.floor(P, "R08.6", 5)
 	w.literalDelimiters(P, f, r)
+	w.numberForms(P, f)
+	w.ncNameStart(P)
+}
+
+// numberForms (R08.8): XPath 1.0 [30] Number ::= Digits ('.' Digits?)? | '.' Digits. The production of the
+// nonterminal whose alternates are built from the digits token and "." has to offer all four forms.
+func (w *World) numberForms(P string, f *Facts) {
+	docRule(P, "R08.8", "T G<->S", "the nonterminal whose alternates consist of the digits token and \".\" (Number) has the four forms of XPath 1.0 [30]: digits, digits \".\", digits \".\" digits, \".\" digits; a missing form makes valid numbers (`1.`) a syntax error.")
+	forms := map[string]string{"digits": "digits", "digits .": "digits \".\"", "digits . digits": "digits \".\" digits", ". digits": "\".\" digits"}
+	var nts []string
+	for nt := range f.Alts {
+		nts = append(nts, nt)
+	}
+	sort.Strings(nts)
+	n := 0
+	for _, nt := range nts {
+		alts := f.Alts[nt]
+		isNum := len(alts) > 0
+		have := map[string]bool{}
+		for _, a := range alts {
+			var parts []string
+			for _, sy := range a.Syms {
+				if sy.IsNT || (sy.Name != "digits" && sy.Name != ".") {
+					isNum = false
+				}
+				parts = append(parts, sy.Name)
+			}
+			have[strings.Join(parts, " ")] = true
+		}
+		if !isNum || !have["digits"] {
+			continue
+		}
+		var keys []string
+		for k := range forms {
+			keys = append(keys, k)
+		}
+		sort.Strings(keys)
+		for _, k := range keys {
+			n++
+			w.check(P, "R08.8", "number form "+forms[k], 0, have[k], fmt.Sprintf("production %s has the alternate %s: %v", nt, forms[k], have[k]))
+		}
+	}
+	if n == 0 {
+		w.undecided(P, "R08.8", "number production", 0, "no nonterminal made of the digits token and \".\" found")
+	}
+	w.floor(P, "R08.8", 4)
+}
+
+// ncNameStart (R08.9): an NCName may start with a letter or an underscore. The generated lexer's start state is a
+// function `func(r rune) state` made of `r == c` cases and a final unicode.IsLetter case; '_' is not a letter, so it
+// needs a case of its own that leads to the state letters lead to.
+func (w *World) ncNameStart(P string) {
+	docRule(P, "R08.9", "T", "NCName start characters: the start state of the generated lexer (element 0 of its transition table) sends '_' to the same state as unicode.IsLetter characters: names such as `_id` are NCNames (XML Names [4] NCNameStartChar).")
+	lp := w.SSA["grammar/lexer"]
+	if lp == nil {
+		w.undecided(P, "R08.9", "lexer", 0, "package grammar/lexer not loaded")
+		return
+	}
+	g, _ := lp.Members["nextState"].(*ssa.Global)
+	initFn := lp.Func("init")
+	if g == nil || initFn == nil {
+		w.undecided(P, "R08.9", "lexer transition table", 0, "package variable nextState not found")
+		return
+	}
+	// element 0 of the slice literal stored into nextState
+	var start *ssa.Function
+	allInstrs(initFn, func(in ssa.Instruction) {
+		st, ok := in.(*ssa.Store)
+		if !ok {
+			return
+		}
+		ia, ok := st.Addr.(*ssa.IndexAddr)
+		if !ok {
+			return
+		}
+		if k, isK := constInt(ia.Index); !isK || k != 0 {
+			return
+		}
+		al, ok := ia.X.(*ssa.Alloc)
+		if !ok {
+			return
+		}
+		// the array backs the slice stored into nextState
+		feeds := false
+		for _, rr := range referrers(al) {
+			if sl, ok := rr.(*ssa.Slice); ok {
+				for _, r2 := range referrers(sl) {
+					if s2, ok := r2.(*ssa.Store); ok && s2.Addr == ssa.Value(g) {
+						feeds = true
+					}
+				}
+			}
+		}
+		if !feeds {
+			return
+		}
+		switch v := st.Val.(type) {
+		case *ssa.Function:
+			start = v
+		case *ssa.MakeClosure:
+			start, _ = v.Fn.(*ssa.Function)
+		}
+	})
+	if start == nil {
+		w.undecided(P, "R08.9", "lexer start state", g.Pos(), "element 0 of nextState not found in the package initialiser")
+		return
+	}
+	// returns per case
+	retOf := func(b *ssa.BasicBlock) (int64, bool) {
+		for hop := 0; hop < 3 && b != nil; hop++ {
+			for _, in := range b.Instrs {
+				if ret, ok := in.(*ssa.Return); ok && len(ret.Results) == 1 {
+					return constInt(ret.Results[0])
+				}
+			}
+			if len(b.Succs) == 1 {
+				b = b.Succs[0]
+			} else {
+				b = nil
+			}
+		}
+		return 0, false
+	}
+	var letterState, underscoreState int64 = -1, -1
+	allInstrs(start, func(in ssa.Instruction) {
+		iff, ok := in.(*ssa.If)
+		if !ok {
+			return
+		}
+		switch c := iff.Cond.(type) {
+		case *ssa.BinOp:
+			if c.Op == token.EQL {
+				if k, isK := constInt(c.Y); isK && k == '_' {
+					if s, ok := retOf(iff.Block().Succs[0]); ok {
+						underscoreState = s
+					}
+				}
+			}
+		case *ssa.Call:
+			if sc := staticCallee(c); sc != nil && funcFullName(sc) == "unicode.IsLetter" {
+				if s, ok := retOf(iff.Block().Succs[0]); ok {
+					letterState = s
+				}
+			}
+		}
+	})
+	if letterState < 0 {
+		w.undecided(P, "R08.9", "lexer start state", start.Pos(), "no unicode.IsLetter case in the start state")
+		return
+	}
+	w.check(P, "R08.9", "NCName start character _", start.Pos(), underscoreState == letterState, fmt.Sprintf("letters lead to state %d; '_' leads to state %d (-1: no case, the character is rejected: `_id` and `//_x` do not compile)", letterState, underscoreState))
+	w.floor(P, "R08.9", 1)
 }
 
 // literalDelimiters (R08.7): the Literal token keeps its delimiters; the value of the literal is what lies between
